@@ -915,7 +915,15 @@ impl<'a> Db<'a> {
                     // SUM/AVG/MIN/MAX over a group with no non-NULL input (→ NULL)
                     self.ev("agg_no_nonnull_input");
                 }
-                aggregate(*f, &vals, *distinct)?
+                let out = aggregate(*f, &vals, *distinct)?;
+                if *f == AggF::Sum && matches!(out.as_f64(), Some(z) if z == 0.0) {
+                    // a SUM over >=1 non-NULL inputs whose value is exactly zero
+                    self.ev("sum_is_zero");
+                }
+                if matches!(f, AggF::Min | AggF::Max) && matches!(out, Value::Str(_)) {
+                    self.ev("minmax_string");
+                }
+                out
             }
             Expr::Grouping(args) => {
                 let mut m = 0i64;
